@@ -238,7 +238,10 @@ def run(ctx):
     for text, node in sh.problems:
         ctx.unk("C10.2", f"{Q}: {text}", core.loc(COMPACT, node), "uncompact has left the modelled two-pass shape")
     if not sh.ok:
-        ctx.unk("C10.2", f"{Q}: structure not recognised", fwhere, "no obligation about uncompact is decided")
+        why = (sc.get("reasons") or [sc.get("stopped", "")])[0]
+        ctx.unk("C10.2", f"{Q}: structure not recognised", fwhere,
+                f"no structural obligation about uncompact is decided; list-shape scenarios: {sc.get('decided', 0)} decided, "
+                f"{sc.get('not_modelled', 0)} not followed" + (f" (first reason: {why})" if why else ""))
         return
     ctx.ok("C10.2", f"{Q}: both passes iterate the argument itself, in order", core.loc(COMPACT, sh.loop1),
            f"`for {sh.elem1} in {sh.cells}` then `{core.src(sh.loop2.iter)}`; no copy, sort or filter in between")
@@ -282,11 +285,19 @@ def run(ctx):
         if cell is None:
             return rec.obligations, 0
         npairs = 0
+        gave_up = 0
         for t in list(range(-1, MAX + 1)):
             npairs += 1
+            if gave_up >= 4:
+                # the interpreter does not follow this version of the code: the remaining targets would only burn the path budget again
+                rec.unk("C10.3", f"{Q}: cell resolution {r}, target {t}: not analysed", core.loc(COMPACT, sh.loop2),
+                        "interpretation stopped on four targets in a row for this resolution")
+                continue
             try:
                 check_pair(rec, su, sh, r, t, cell)
+                gave_up = 0
             except (Budget, _Unmodelled) as e:
+                gave_up += 1
                 rec.unk("C10.3", f"{Q}: cell resolution {r}, target {t}: interpretation stopped", core.loc(COMPACT, sh.loop2), f"{type(e).__name__}: {e}")
         return rec.obligations, npairs
 
